@@ -1,6 +1,7 @@
 package main
 
 import (
+	"encoding/json"
 	"flag"
 	"fmt"
 	"reflect"
@@ -174,6 +175,49 @@ func (m *gmachine) exec(ev map[string]any) {
 		m.regs[outName] = c
 		ev["equal"] = c.Equal(a) && a.Equal(c)
 		m.logHeap(ev, outName, str(ev, "a"))
+	case "CopyElem":
+		// the element-level copies (node, edge, person, external reference): same content, equal, no shared storage
+		k := integer(ev, "k")
+		shared := func(x, y any) bool {
+			sx, sy := map[uintptr]bool{}, map[uintptr]bool{}
+			walkHeap(reflect.ValueOf(x), sx)
+			walkHeap(reflect.ValueOf(y), sy)
+			for p := range sx {
+				if sy[p] {
+					return true
+				}
+			}
+			return false
+		}
+		same := func(x, y protoreflect.Message) bool {
+			bx, _ := json.Marshal(proj.Msg(x))
+			by, _ := json.Marshal(proj.Msg(y))
+			return string(bx) == string(by)
+		}
+		res := []any{}
+		if len(a.Nodes) > 0 {
+			n := a.Nodes[k%len(a.Nodes)]
+			c := n.Copy()
+			res = append(res, map[string]any{"kind": "node", "content": same(n.ProtoReflect(), c.ProtoReflect()), "equal": n.Equal(c) && c.Equal(n), "shared": shared(n, c)})
+			for _, p := range append(append([]*sbom.Person{}, n.Suppliers...), n.Originators...) {
+				if p != nil {
+					pc := p.Copy()
+					res = append(res, map[string]any{"kind": "person", "content": same(p.ProtoReflect(), pc.ProtoReflect()), "equal": true, "shared": shared(p, pc)})
+				}
+			}
+			for _, x := range n.ExternalReferences {
+				if x != nil {
+					xc := x.Copy()
+					res = append(res, map[string]any{"kind": "extref", "content": same(x.ProtoReflect(), xc.ProtoReflect()), "equal": true, "shared": shared(x, xc)})
+				}
+			}
+		}
+		if len(a.Edges) > 0 {
+			e := a.Edges[k%len(a.Edges)]
+			c := e.Copy()
+			res = append(res, map[string]any{"kind": "edge", "content": same(e.ProtoReflect(), c.ProtoReflect()), "equal": e.Equal(c) && c.Equal(e), "shared": shared(e, c)})
+		}
+		ev["copies"] = res
 	case "Mutate":
 		ev["path"] = mutate(a.ProtoReflect(), integer(ev, "k"))
 	case "GetNodeByID":
